@@ -119,3 +119,49 @@ Example hist_example :
   ex_serve (firstn 2 ex_ops) (w_req "GET" "h" "/foo/bar")
     = Some (ORule 0 [] false, [{| k_vid := 0; k_keys := []; k_vals := []; k_res := MYes |}]).
 Proof. vm_compute. repeat split. Qed.
+
+(** the requests of the example satisfy the hypotheses of the [_now] theorems
+    ([hist_selected_only_if_documented]): a non-empty, validly encoded RawPath *)
+Lemma hist_example_hyps :
+  String.eqb (q_rawpath (w_req "GET" "h" "/foo/baz/1")) "" = false /\
+  valid_enc (q_rawpath (w_req "GET" "h" "/foo/baz/1")).
+Proof. split; [reflexivity | apply valid_encb_spec; reflexivity]. Qed.
+
+(** non-vacuity of the Add-only lookup theorems for the code as it is (all repairs, D8): the same
+    rule set loaded by ONE AddRuleSet through C03's own transcription of Add, and a request that
+    selects a rule through a path_params condition on a wildcard *)
+Lemma lookup_nonvacuous :
+  exists es t,
+    load true true ex_ds = Loaded es t /\
+    String.eqb (q_rawpath (w_req "GET" "h" "/foo/baz/1")) "" = false /\
+    valid_enc (q_rawpath (w_req "GET" "h" "/foo/baz/1")) /\
+    serve true true true true D8 eng_none es t (w_req "GET" "h" "/foo/baz/1")
+      = (ORule 1 [("x", "1")] false, [{| k_vid := 1; k_keys := ["x"]; k_vals := ["1"]; k_res := MYes |}]) /\
+    serve true true true true D8 eng_none es t (w_req "GET" "h" "/files/a/b")
+      = (ORule 1 [("rest", "a/b")] false, [{| k_vid := 2; k_keys := ["rest"]; k_vals := ["a/b"]; k_res := MYes |}]).
+Proof.
+  destruct (load true true ex_ds) as [| | |es t] eqn:E; try (vm_compute in E; discriminate).
+  exists es, t. split; [reflexivity|]. destruct hist_example_hyps as [H1 H2]. split; [exact H1|]. split; [exact H2|].
+  vm_compute in E. inversion E; subst. split; vm_compute; reflexivity.
+Qed.
+
+(** a methods list is rejected by the code as it is exactly when it contains an empty string or is
+    non-empty and - by the SPECIFICATION [spec_method] - allows no method at all *)
+Lemma method_list_rejected_spec ms :
+  create_method_matcher true ms = Rejected <-> In "" ms \/ (ms <> [] /\ forall m, spec_method ms m = false).
+Proof.
+  destruct (method_list_rejected ms) as [Hf Ht]. rewrite Ht. clear Ht.
+  assert (Hg : In "" ms \/ (guard_F4 false ms = true <-> ms <> [] /\ forall m, spec_method ms m = false)).
+  { destruct (in_dec string_dec "" ms) as [Hin|Hnin]; [left; exact Hin | right].
+    unfold guard_F4. cbn [negb andb].
+    destruct (create_method_matcher false ms) as [l|] eqn:Ec; [|exfalso; apply Hnin; apply Hf; reflexivity].
+    pose proof (created_methods false ms l Ec) as Hm.
+    destruct ms as [|m0 mr]; [cbn [is_nil negb andb]; split; [discriminate | intros [H _]; congruence]|].
+    cbn [is_nil negb andb]. split.
+    - intro H. destruct l; [|discriminate]. split; [discriminate|].
+      intro m. rewrite spec_method_unfold. cbn [is_nil orb]. rewrite <- Hm. reflexivity.
+    - intros [_ H]. destruct l as [|x l']; [reflexivity|]. exfalso.
+      specialize (H x). rewrite spec_method_unfold in H. cbn [is_nil orb] in H. rewrite <- Hm in H.
+      unfold mem in H. cbn [existsb] in H. rewrite String.eqb_refl in H. discriminate. }
+  destruct Hg as [Hin|Hiff]; [tauto|]. rewrite Hiff. reflexivity.
+Qed.
